@@ -64,6 +64,10 @@ type XAConn struct {
 	branchRegisterTime time.Time
 	isConnKept         bool
 
+	// openedForPhaseTwo: the connection was opened only to finish a branch this process does not hold
+	// (DBResource.ConnectionForXA): nobody else owns it
+	openedForPhaseTwo bool
+
 	// held: the branches of this connection that are in the resource's keeper, with the time of their prepare
 	// (zero until then). A connection may carry several: on a session whose last branch is PREPARED the next one
 	// may start. The two-phase timeout checker reads it from a goroutine of its own.
@@ -567,6 +571,15 @@ func (c *XAConn) CloseForce() error {
 	c.releaseAll()
 	c.cleanXABranchContext()
 	return nil
+}
+
+// closeIfOpenedForPhaseTwo gives back the connection that was opened to finish one branch
+func (c *XAConn) closeIfOpenedForPhaseTwo() {
+	if c.openedForPhaseTwo && c.Conn != nil && c.Conn.targetConn != nil {
+		if err := c.Conn.targetConn.Close(); err != nil {
+			log.Errorf("close the connection opened for phase two of %v, err:%v", c.xaBranchXid, err)
+		}
+	}
 }
 
 func (c *XAConn) XaCommit(ctx context.Context, xaXid XAXid) error {
